@@ -99,7 +99,7 @@ pub fn install(quiet: bool) {
         let fatal = msg.contains("unsafe precondition") || msg.contains("cannot unwind") || msg.contains("panic in a function that cannot unwind") || std::thread::panicking() && msg.contains("while processing panic");
         if fatal {
             emit(&format!("{msg} at {loc}"));
-        } else if !quiet {
+        } else if !quiet || std::env::var_os("PQMC_DEBUG").is_some() {
             eprintln!("[panic] {msg} at {loc}");
         }
     }));
